@@ -388,13 +388,16 @@ func (r *RunResult) Finish() int {
 	}
 
 	selfTestFailed := false
-	killed, stale, survived, quiet, falseAlarms := 0, 0, 0, 0, 0
+	killed, stale, survived, quiet, falseAlarms, limitations := 0, 0, 0, 0, 0, 0
 	for _, m := range r.Mutants {
 		switch m.Status {
 		case "killed":
 			killed++
 		case "stale":
 			stale++
+		case "limitation":
+			limitations++
+			fmt.Printf("KNOWN-LIMITATION property=%s variant=%s %s\n", r.Prop.ID, m.Name, tail(m.Detail, 400))
 		case "quiet":
 			quiet++
 		case "false-alarm":
@@ -439,9 +442,9 @@ func (r *RunResult) Finish() int {
 		cov["notes"] = r.Notes
 	}
 	if len(r.Mutants) > 0 {
-		cov["sensitivity_suite"] = map[string]any{"mutants": len(r.Mutants) - quiet - falseAlarms, "killed": killed, "stale": stale, "survived": survived, "results": r.Mutants}
-		if quiet+falseAlarms > 0 {
-			cov["specificity_suite"] = map[string]any{"benign_variants": quiet + falseAlarms, "quiet": quiet, "false_alarms": falseAlarms}
+		cov["sensitivity_suite"] = map[string]any{"mutants": len(r.Mutants) - quiet - falseAlarms - limitations, "killed": killed, "stale": stale, "survived": survived, "results": r.Mutants}
+		if quiet+falseAlarms+limitations > 0 {
+			cov["specificity_suite"] = map[string]any{"benign_variants": quiet + falseAlarms + limitations, "quiet": quiet, "false_alarms": falseAlarms, "documented_limitations": limitations}
 		}
 	}
 	for k, v := range r.Cross {
@@ -473,9 +476,9 @@ func (r *RunResult) Finish() int {
 		fmt.Printf("  %-8s %d/%d\n", ru, perRule[ru][1], perRule[ru][0])
 	}
 	if len(r.Mutants) > 0 {
-		fmt.Printf("  sensitivity suite: %d mutants, %d killed, %d stale, %d survived\n", len(r.Mutants)-quiet-falseAlarms, killed, stale, survived)
-		if quiet+falseAlarms > 0 {
-			fmt.Printf("  specificity suite: %d behaviour-preserving variants, %d quiet, %d false alarms\n", quiet+falseAlarms, quiet, falseAlarms)
+		fmt.Printf("  sensitivity suite: %d mutants, %d killed, %d stale, %d survived\n", len(r.Mutants)-quiet-falseAlarms-limitations, killed, stale, survived)
+		if quiet+falseAlarms+limitations > 0 {
+			fmt.Printf("  specificity suite: %d behaviour-preserving variants, %d quiet, %d false alarms, %d documented limitations\n", quiet+falseAlarms+limitations, quiet, falseAlarms, limitations)
 		}
 	}
 	if violations > 0 {
@@ -493,3 +496,4 @@ func TypeString(t types.Type) string {
 		return strings.TrimPrefix(strings.TrimPrefix(p.Path(), Module+"/"), Module)
 	})
 }
+
